@@ -299,6 +299,38 @@ PROPS = {
         floors=(1_500_000, 40_000, 30_000_000, 400_000),
         extra_thorough=[stage(config="native-css", budget_s=240, args=["--set", "only=total"], name="css", count_coverage=False)],
     ),
+    "C19": {
+        "level": "exploration",
+        "rule": "diff: 4 000 (thorough 80 000) seeded cases of (regex-heavy rule list with cosmetic rules, 24 mixed network/csp/cosmetic/class-id "
+                "queries, optimise flag, discard policy) answered by the thread-safe build and by the single-thread build (peer process); digests "
+                "must be equal. conc: batches on one shared &Engine in the thread-safe build: N in {2,4,8,16} threads each running the same 400 "
+                "mixed queries from different offsets, discard policy 1ns/1ns, 50us/20us or default, yields / micro-sleeps / spins injected "
+                "through the pre-acquire hook (between critical sections); every concurrent answer compared with the sequential answer "
+                "computed beforehand on the same engine; thread panics and poisoned locks reported; batch completion under a 120 s watchdog. "
+                "The H5 hook records the regex-manager acquisition order. tsan: the same concurrent workload (smaller) in a ThreadSanitizer "
+                "build of harness + crate + std (-Zbuild-std), event logging off so that the hook adds no synchronisation; any report is a "
+                "violation. non-trivial = a batch whose acquisition order has >= 2N thread switches and involves all N threads (distinct = "
+                "hash of the acquisition order), or a differential case with a non-default answer.",
+        "assumptions": [STRICT.replace("default +", "embedded-domain-resolver + full-regex-handling (no unsync-regex-caching) +"),
+                        "schedules are whatever the OS produces under injected delays on 16 cores; no exhaustive interleaving coverage is claimed",
+                        "a watchdog firing that does not reproduce on the single journaled case is inconclusive, never a violation",
+                        "if the thread-safe configuration stops compiling while the default one compiles, that is reported as a violation (static Send+Sync assertion)"],
+        "floor": {"quick": {"evaluations": 400_000, "nontrivial": 300}, "thorough": {"evaluations": 8_000_000, "nontrivial": 4_000}},
+        "tiers": {
+            "quick": {"stages": [
+                stage(config="native-sync", budget_s=90, needs=["native"], args=["--set", "peer={bin:native}"], name="native-sync",
+                      on_build_failure="violation_if_native_builds", hang_is_violation=True),
+                stage(config="tsan-sync", budget_s=120, watchdog_s=900, shards=4, args=["--set", "mode=conc-only", "--set", "tsan=1"], name="tsan",
+                      run_env={"TSAN_OPTIONS": "halt_on_error=1 abort_on_error=0 exitcode=66 report_signal_unsafe=0"}, count_coverage=False),
+            ]},
+            "thorough": {"stages": [
+                stage(config="native-sync", budget_s=600, needs=["native"], args=["--set", "peer={bin:native}"], name="native-sync",
+                      on_build_failure="violation_if_native_builds", hang_is_violation=True),
+                stage(config="tsan-sync", budget_s=600, watchdog_s=2400, shards=8, args=["--set", "mode=conc-only", "--set", "tsan=1"], name="tsan",
+                      run_env={"TSAN_OPTIONS": "halt_on_error=1 abort_on_error=0 exitcode=66 report_signal_unsafe=0"}, count_coverage=False),
+            ]},
+        },
+    },
 }
 
 # ---------------------------------------------------------------------------------------------
@@ -457,6 +489,15 @@ MANIFEST_TEXT = {
         "note": "Totality is judged with debug assertions and overflow checks on.",
         "technique": "runtime monitoring: mutation-driven totality under catch_unwind + differential twins by bytes and battery",
         "design_ref": "DESIGN.md §4.11",
+    },
+    "C19": {
+        "text": "Runtime monitoring of the thread-safe build: a configuration differential against the single-thread build, concurrent-equals-"
+                "sequential checking of every answer on a shared engine under injected delays with the lock acquisition order recorded through a "
+                "hook (evidence reports how many batches actually interleaved), bounded-progress watchdog, and the same workload under "
+                "ThreadSanitizer with the standard library instrumented. Deadlock-freedom is restated as bounded progress.",
+        "note": "Held on the schedules observed; TSan understands std's Mutex because std is rebuilt instrumented (-Zbuild-std).",
+        "technique": "runtime monitoring: concurrent-vs-sequential differential under delay injection, acquisition-order event log, ThreadSanitizer",
+        "design_ref": "DESIGN.md §4.19",
     },
 }
 
